@@ -67,6 +67,7 @@ def execute(case: Dict[str, Any]) -> Dict[str, Any]:
     switching the read log off while Emulator.decode_instruction runs (the decoder looks one instruction ahead,
     so fetch is not simply [pc, pc+len)); execute_instruction re-reads the opcode byte once afterwards."""
     emu, mem = _make_emulator(case)
+    prior_note = None
     orig = emu.decode_instruction
 
     def dec(address: int, read_fn: Any = None) -> Any:
@@ -77,7 +78,11 @@ def execute(case: Dict[str, Any]) -> Dict[str, Any]:
             mem.log_reads = True
 
     emu.decode_instruction = dec  # type: ignore[method-assign]
+    if case.get("prior"):
+        prior_note = run_prior(emu, mem, case)
     out = pycore.step(emu, mem, want_reads=True)
+    if prior_note:
+        out["prior_raised"] = prior_note
     reads = list(out.get("reads", []))
     pc = pycore.canon(case["regs"]["PC"])
     if reads and reads[0] == pc:
@@ -85,6 +90,40 @@ def execute(case: Dict[str, Any]) -> Dict[str, Any]:
     out["reads"] = reads
     out["outside"] = [[k, a] for k, a in mem.outside[:16]]
     return out
+
+
+def run_prior(emu: Any, mem: RawMemory, case: Dict[str, Any]) -> Optional[str]:
+    """The operation the emulator object performed before the instruction under test (case['prior'], see
+    c03_gen.draw_prior): its bytes are planted at its address, it is fetched through execute_instruction or
+    decode_instruction (exceptions are its own business), and then registers (TEMPs included), memory and the power
+    state are put back to exactly the machine state of the case.  What survives is the Emulator object's own state --
+    which is not part of the machine state the property quantifies over.  Returns the exception type name, if any."""
+    from sc62015.pysc62015.emulator import RegisterName
+
+    p = case["prior"]
+    saved = dict(mem.over)
+    addr = int(p["addr"]) & RS.M20
+    if p["code"]:                      # '' = the bytes that are there already (the instruction under test itself)
+        for i, b in enumerate(bytes.fromhex(p["code"]) + bytes(8)):
+            mem.over[(addr + i) & RS.M20] = b
+    emu.regs.set(RegisterName.I, 1 + (int(case["regs"].get("I", 0)) % 24))     # keep a counted prior short
+    note: Optional[str] = None
+    try:
+        if p.get("via") == "decode":
+            emu.decode_instruction(addr)
+        else:
+            emu.execute_instruction(addr)
+    except Exception as exc:  # noqa: BLE001
+        note = type(exc).__name__
+    mem.over = saved
+    mem.writes, mem.reads, mem.waits, mem.outside = [], [], [], []
+    mem.noncanon = False
+    mem.log_reads = True
+    regs = {f"TEMP{i}": 0 for i in range(GN.NUM_TEMPS)}
+    regs.update(case.get("regs", {}))
+    pycore.set_regs(emu, regs)
+    emu.state.halted = case.get("power", "running") != "running"
+    return note
 
 
 def address_space_verdicts(obs: Dict[str, Any]) -> List[Tuple[str, str, str]]:
@@ -335,6 +374,34 @@ CODE_WINDOW = 24      # bytes at PC treated as code: instruction (<= 7) + follow
 TAG_FOLLOW = " [depends on the following instruction]"
 TAG_TEMPS = " [depends on the lifter's TEMP registers at entry]"
 TAG_TOPBIT = " [I >= 8000h]"
+TAG_PRIOR = " [depends on the previous operation on the same emulator]"
+TAG_PAGE = " [encoding straddles a 64 KiB page boundary]"
+TAG_PAGE_NEXT = " [a 64 KiB page boundary lies right behind the instruction]"
+RELOCATE_BY = 0x400
+
+
+def relocated(case: Dict[str, Any], by: int = RELOCATE_BY) -> Dict[str, Any]:
+    """The same case with the code window moved `by` bytes down (away from a page boundary); data bytes that were planted
+    in the new window are dropped."""
+    pc = case["regs"]["PC"] & RS.M20
+    new_pc = (pc - by) & RS.M20
+    old_win = {(pc + i) & RS.M20: i for i in range(CODE_WINDOW)}
+    new_win = {(new_pc + i) & RS.M20 for i in range(CODE_WINDOW)}
+    mem: List[List[int]] = []
+    moved: Dict[int, int] = {}
+    for a, v in case["mem"]:
+        c = pycore.canon(a)
+        if c in old_win:
+            moved[old_win[c]] = v
+        elif c not in new_win:
+            mem.append([a, v])
+    for i in range(CODE_WINDOW):
+        mem.append([(new_pc + i) & RS.M20, moved.get(i, 0)])
+    c2 = dict(case)
+    c2["regs"] = dict(case["regs"])
+    c2["regs"]["PC"] = new_pc
+    c2["mem"] = mem
+    return c2
 
 
 def has_temp_junk(case: Dict[str, Any]) -> bool:
@@ -418,9 +485,12 @@ def judge(case: Dict[str, Any], want_obs: bool = False, _nofollow: bool = False)
         j.loc.append(("exec-error", "python exception: " + obs["err"].split(":")[0], obs["err"]))
         return j
     if obs.get("len") != length:
+        # the emulator executed an instruction of another length than the one the bytes at PC disassemble to: values
+        # are moot; the locations it touched are still compared with the ones the text denotes (C03's question)
         j.val.append(("length", "executed length differs from rendered length", f"{obs.get('len')} vs {length}"))
-        return j
-    _judge_outcome(j, case, exps, prim, obs, mn, ops, regs, peek, length)
+        j.loc += [(sub, sym, det) for sub, _, sym, det in loc_compare(prim, regs, obs, ops)]
+    else:
+        _judge_outcome(j, case, exps, prim, obs, mn, ops, regs, peek, length)
     j.loc += address_space_verdicts(obs)
     if mn in RS.COUNTED and (int(regs["I"]) & 0xFFFF) >= 0x8000:
         # semantic input class: the 16-bit counter has its top bit set (iteration count above 32767)
@@ -452,6 +522,10 @@ def judge(case: Dict[str, Any], want_obs: bool = False, _nofollow: bool = False)
             compare(c2, TAG_FOLLOW)
         if has_temp_junk(case):
             compare(without_temps(case), TAG_TEMPS)
+        if case.get("prior"):
+            compare({k: v for k, v in case.items() if k != "prior"}, TAG_PRIOR)
+        if (pc & 0xFFFF) + CODE_WINDOW > 0x10000 and pc >= RELOCATE_BY:
+            compare(relocated(case), TAG_PAGE if (pc & 0xFFFF) + length > 0x10000 else TAG_PAGE_NEXT)
         j.loc = [(sub, sym + t, det) for (sub, sym, det), t in zip(j.loc, loc_tags)]
         j.val = [(sub, sym + t, det) for (sub, sym, det), t in zip(j.val, val_tags)]
     return j
@@ -581,7 +655,12 @@ def explore_shard(task: Tuple[Any, ...]) -> Report:
     """task = (prop, shard, nshards, seed, count, imax, salt[, focus]).  focus None: cycle over all (prefix, opcode)
     pairs; focus (count = repetitions per (prefix, head)) 'blockwrap' / 'ptr-edge': boundary grids over the MVL/MVLD encodings resp. the encodings with a
     [r3++] / [--r3] operand (see c03_gen.focus_heads); focus 'bigcount' (count = cases of this shard): the MVL/MVLD/WAIT
-    (prefix, head) pairs in a seed-rotated order with large iteration counts (c03_gen.big_count)."""
+    (prefix, head) pairs in a seed-rotated order with large iteration counts (c03_gen.big_count); focus 'overptr'
+    (count = repetitions per (prefix, head)): the MVL/MVLD heads with an internal run passing over the BP/PX/PY cells;
+    focus 'pagecross' (count = split positions per (prefix, opcode)): every (prefix, opcode) pair placed so that byte
+    offset k of its encoding is the first byte of a new 64 KiB page, k cycling through 1..len-1 from a seeded start.
+    In every mode two more dimensions are generated per case: where the instruction sits (1/16 at a page boundary) and
+    what the emulator object did before (c03_gen.draw_prior; 1/2 nothing)."""
     prop, shard, nshards, seed, count, imax, salt = task[:7]
     focus = task[7] if len(task) > 7 else None
     seed = mix32(seed, salt, 0x5EED)     # decorrelate neighbouring VERIF_SEED values
@@ -589,11 +668,14 @@ def explore_shard(task: Tuple[Any, ...]) -> Report:
         seed = mix32(seed, 0xF0C5, len(focus))
     rep = Report()
     ops_list = GN.opcodes()
-    heads = GN.focus_heads("blockwrap" if focus == "bigcount" else focus) if focus else []
+    heads = GN.focus_heads("blockwrap" if focus in ("bigcount", "overptr") else focus) if focus and focus != "pagecross" else []
     if focus == "bigcount":
         heads = heads + [(WAIT_OPCODE, 0x00)]      # the third user of the counted loop; a prefixed WAIT runs its IL loop
     npairs = len(ops_list) * len(G.PRES)
-    if focus and focus != "bigcount":
+    if focus == "pagecross":
+        total = npairs * count                             # `count` = split positions tried per (prefix, opcode)
+        count = (total - shard + nshards - 1) // nshards if total > shard else 0
+    elif focus and focus != "bigcount":
         total = len(heads) * len(G.PRES) * count          # for a focus grid `count` = repetitions per (prefix, head)
         count = (total - shard + nshards - 1) // nshards if total > shard else 0
     for k in range(count):
@@ -609,6 +691,10 @@ def explore_shard(task: Tuple[Any, ...]) -> Report:
             pair = (mix32(seed, 0xB16) + idx * stride) % nfp
             pre = G.PRES[pair % len(G.PRES)]
             op, b2 = heads[pair // len(G.PRES)]
+        elif focus == "pagecross":
+            pair = idx % npairs
+            pre = G.PRES[pair // len(ops_list)]
+            op = ops_list[pair % len(ops_list)]
         elif focus:
             pre = G.PRES[idx % len(G.PRES)]
             op, b2 = heads[(idx // len(G.PRES)) % len(heads)]
@@ -625,7 +711,7 @@ def explore_shard(task: Tuple[Any, ...]) -> Report:
                 # rewrites BP,PX,PY while addressing through them): re-draw the case, prefix included
                 st = S.Stream(seed, salt, idx, attempt)
                 pre = st.choice(G.PRES)
-            got = _draw_and_judge(st, pre, op, b2, focus, imax, ops_list)
+            got = _draw_and_judge(st, pre, op, b2, focus, imax, ops_list, split=(idx // npairs + mix32(seed, 0x9A6E, idx % npairs)))
             if got is None or got[3].status != "skip" or attempt == attempts - 1:
                 break
             retries.append("bigcount:redrawn:" + got[3].reason)
@@ -645,8 +731,11 @@ def _gcd(a: int, b: int) -> int:
 
 
 def _draw_and_judge(st: S.Stream, pre: Optional[int], op: int, b2: Optional[int], focus: Optional[str], imax: int,
-                    ops_list: List[int]) -> Optional[Tuple[Dict[str, Any], List[str], str, Judgement]]:
-    code = GN.draw_encoding(st, pre, op, b2=b2, hi_bias=(focus == "blockwrap")) if focus else GN.draw_encoding(st, pre, op)
+                    ops_list: List[int], split: int = 0) -> Optional[Tuple[Dict[str, Any], List[str], str, Judgement]]:
+    if focus and focus != "pagecross":
+        code = GN.draw_encoding(st, pre, op, b2=b2, hi_bias=(focus in ("blockwrap", "overptr")), near_ptr=(focus == "overptr"))
+    else:
+        code = GN.draw_encoding(st, pre, op)
     if code is None:
         return None
     # what follows the instruction in memory is a generated dimension (the decoder looks one instruction ahead):
@@ -663,13 +752,27 @@ def _draw_and_judge(st: S.Stream, pre: Optional[int], op: int, b2: Optional[int]
     if not follow:
         follow, flabel = b"", "follow:nop"
     big = imax > 64 and st.chance(1, 6)
-    mc = GN.make_case(st, code, imax if big else min(imax, 24), follow=follow, focus=focus)
+    # where the instruction sits is a generated dimension: in the 'pagecross' grid every byte offset 1..len-1 of the
+    # encoding in turn is the first byte of a new 64 KiB page (len 1: the instruction is the last byte of a page);
+    # elsewhere 1/16 of the cases sit at a page boundary (offset 0..len)
+    place: Optional[Tuple[int, str]] = None
+    if focus == "pagecross":
+        place = GN.page_cross_pc(st, len(code), 1 + split % max(1, len(code) - 1))
+    elif st.chance(1, 16):
+        place = GN.page_cross_pc(st, len(code))
+    mc = GN.make_case(st, code, imax if big else min(imax, 24), pc=(place[0] if place else None), follow=follow, focus=focus)
     if mc is None:
         return None
     case, labels, mn, ops = mc
     labels.append(flabel)
+    labels.append(place[1] if place else "page:inside")
     if focus:
         labels.append("focus:" + focus)
+    # what the emulator object did before is a generated dimension (1/2: nothing, a fresh emulator)
+    prior, plabels = GN.draw_prior(st, ops_list, case["regs"]["PC"])
+    if prior is not None:
+        case["prior"] = prior
+    labels += plabels
     return case, labels, mn, judge(case)
 
 
@@ -716,7 +819,7 @@ def shrink_case(prop: str, v: Violation) -> Violation:
     """Field-wise delta debugging: simplify registers / drop memory overrides while the fingerprint persists."""
     import time as _t
     t0 = _t.time()
-    case = {k: v.case[k] for k in ("regs", "power", "seed", "mem", "steps") if k in v.case}
+    case = {k: v.case[k] for k in ("regs", "power", "seed", "mem", "steps", "prior") if k in v.case}
     key = v.key()
 
     def same(c: Dict[str, Any]) -> Optional[Violation]:
@@ -735,6 +838,11 @@ def shrink_case(prop: str, v: Violation) -> Violation:
     if best is None:
         return v
     pc = case["regs"]["PC"]
+    if case.get("prior"):
+        c2 = {k: x for k, x in case.items() if k != "prior"}
+        b = same(c2)
+        if b is not None:
+            case, best = c2, b
     if has_temp_junk(case):
         # lifter scratch registers: all clear, else one at a time
         b = same(without_temps(case))
